@@ -388,7 +388,11 @@ func c04Special() map[string][][]byte {
 		m["deep-nesting"] = append(m["deep-nesting"], []byte(strings.Repeat("a1{", depth)), []byte(strings.Repeat("m1{", depth)),
 			[]byte(strings.Repeat("a1{", depth)+"1"+strings.Repeat("}", depth)))
 	}
-	m["self-reference"] = [][]byte{[]byte("a1{r0;}"), []byte("m1{uar0;}"), []byte("a2{a1{r1;}r0;}")}
+	m["self-reference"] = [][]byte{[]byte("a1{r0;}"), []byte("m1{uar0;}"), []byte("a2{a1{r1;}r0;}"),
+		// a container that contains itself, referred to where a text is expected (the message of an error value,
+		// a string element): it has no text form, and looking for one must not walk it for ever
+		[]byte("a2{m1{uar1;}Er1;}"), []byte("m2{uar0;ubEr0;}"), []byte("a2{a1{r1;}Er1;}"), []byte("a1{Er0;}"),
+		[]byte("a3{m1{uar1;}s2\"ab\"r1;}"), []byte("c4\"Node\"5{s1\"v\"s4\"next\"s4\"kids\"s1\"m\"s3\"any\"}o0{1r5;a2{Er5;o0{2nnnn}}nn}")}
 	return m
 }
 
@@ -413,7 +417,9 @@ func runC04(a Args) tr.Summary {
 		} else if len(b) > 0 && (b[0] == 'R' || b[0] == 'E') {
 			entries = []string{"client"}
 		}
-		if mut == "deep-nesting" {
+		if mut == "self-reference" {
+			dests = []string{"iface", "node", "slice_string", "string", "map_string_int"}
+		} else if mut == "deep-nesting" {
 			dests = []string{"iface", "node"}
 		} else if mut == "unhashable-key" {
 			dests = []string{"iface", "iface+opts", "map_iface_int", "map_iface_int+opts", "map_iface_iface", "map_iface_iface+opts", "map_string_int", "node"}
